@@ -400,3 +400,85 @@ func normalizeWalletJSON(b []byte) []byte {
 	out, _ := json.Marshal(js)
 	return out
 }
+
+// TestC18_LegacyMetaWallets: wallet files written by old versions carry no cryptoType in their metadata.  Such a wallet
+// is locked with the default cipher (scrypt at its real work factor, ~1 GiB and seconds per operation, hence the very
+// small case count); everything the property says about lock / unlock must hold for it as well.
+func TestC18_LegacyMetaWallets(t *testing.T) {
+	r := ev.Get("C18")
+	hx.Check(t, "C18", 1, 12, func(t *rapid.T) {
+		seed := rapid.IntRange(0, 50).Draw(t, "seed")
+		n := rapid.IntRange(1, 3).Draw(t, "n")
+		pw := []byte(rapid.StringOfN(rapid.RuneFrom(nil, &asciiRange), 1, 10, -1).Draw(t, "pw"))
+		for _, kind := range []wkind{kDet, kBip, kColl} {
+			w0 := newWallet(t, kind, seed, n, fastCrypto[0])
+			raw, err := w0.Serialize()
+			if err != nil {
+				t.Fatal(err)
+			}
+			var js map[string]interface{}
+			if err := json.Unmarshal(raw, &js); err != nil {
+				t.Fatal(err)
+			}
+			meta, _ := js["meta"].(map[string]interface{})
+			if _, ok := meta["cryptoType"]; !ok {
+				t.Fatalf("harness: wallet JSON has no meta.cryptoType to remove")
+			}
+			delete(meta, "cryptoType")
+			legacy, _ := json.Marshal(js)
+			dir := hx.TempDir("c18legacy")
+			fn := filepath.Join(dir, w0.Filename())
+			if err := os.WriteFile(fn, legacy, 0600); err != nil {
+				t.Fatal(err)
+			}
+			w, err := wallet.Load(fn)
+			if err != nil {
+				// a loader may insist on the field; then there is no such wallet to lock
+				r.Count("legacy_meta_refused_by_loader_" + string(kind))
+				os.RemoveAll(dir)
+				continue
+			}
+			secrets := secretsOf(w)
+			entriesBefore, _ := w.GetEntries()
+			before, _ := w.Serialize()
+			if err := w.Lock(pw); err != nil {
+				t.Fatalf("%s wallet without meta.cryptoType: Lock: %v", kind, err)
+			}
+			locked, err := w.Serialize()
+			if err != nil {
+				t.Fatal(err)
+			}
+			for _, s := range secrets {
+				if strings.Contains(string(locked), s) {
+					t.Fatalf("%s wallet without meta.cryptoType, locked: serialised form still contains the secret %q", kind, s)
+				}
+			}
+			if _, err := w.Unlock([]byte(string(pw) + "x")); err == nil {
+				t.Fatalf("Unlock accepted a wrong password")
+			}
+			// the locked file goes through a save and a load, as the wallet service does
+			if err := os.WriteFile(fn, locked, 0600); err != nil {
+				t.Fatal(err)
+			}
+			lw, err := wallet.Load(fn)
+			if err != nil {
+				t.Fatalf("%s wallet without meta.cryptoType: the file written after Lock does not load: %v", kind, err)
+			}
+			u, err := lw.Unlock(pw)
+			if err != nil {
+				t.Fatalf("%s wallet without meta.cryptoType: Unlock with the password it was locked with: %v", kind, err)
+			}
+			after, _ := u.Serialize()
+			if !bytes.Equal(normalizeWalletJSON(before), normalizeWalletJSON(after)) {
+				t.Fatalf("%s: lock+unlock changed the legacy wallet:\n before %s\n after  %s", kind, before, after)
+			}
+			entriesAfter, _ := u.GetEntries()
+			if fmt.Sprint(entriesBefore) != fmt.Sprint(entriesAfter) || fmt.Sprint(secrets) != fmt.Sprint(secretsOf(u)) {
+				t.Fatalf("%s: secrets or entries changed by lock+unlock of a legacy wallet", kind)
+			}
+			os.RemoveAll(dir)
+			r.Count("legacy_meta_wallet_locked_" + string(kind))
+			r.Case(true, append([]byte("legacy/"), locked...))
+		}
+	})
+}
